@@ -71,6 +71,14 @@ def check_property(pid, tier, seed, args, t0):
             o['status'] = 'undecided'
             o['reason'] = 'depends on a lemma that was not proved in this run'
 
+    trusted_callees = set()
+    short2q = {RUN._STATE['prog'].short(q): q for q in C.CONTRACTS}
+    for f_ in functions:
+        for cal in f_.get('callees', []):
+            q = short2q.get(cal)
+            if q and C.CONTRACTS[q].trusted:
+                trusted_callees.add(cal + (': ' + C.CONTRACTS[q].notes if C.CONTRACTS[q].notes
+                                           else ''))
     mine = [o for o in obls if pid in o['props']]
     by_label = {}
     for o in mine:
@@ -227,6 +235,7 @@ def check_property(pid, tier, seed, args, t0):
             'unsupported': unsupported, 'errors': errors,
             'refuted_or_regressed': [l for l, _, _ in violations],
             'known_findings': [l for l, _ in known_hits],
+            'assumed_contracts_of_callees': sorted(trusted_callees),
             'inlined_without_contract': sorted(inlined),
             'termination_unverified': sorted(unverified_termination),
             'canary_ok': ok_canary,
@@ -237,7 +246,8 @@ def check_property(pid, tier, seed, args, t0):
                            'known_findings; bounded stand-ins are listed separately and never '
                            'counted as discharged',
         },
-        'assumptions': sorted(assumed) + not_decided,
+        'assumptions': sorted(assumed) + ['assumed (trusted) contract: ' + t for t in
+                                          sorted(trusted_callees)] + not_decided,
         'wall_s': round(time.time() - t0, 2),
         'violations': vcount,
     }
